@@ -142,6 +142,7 @@ class Ctx:
         self.evaluations = 0
         self.case = None
         self.open_call = None
+        self.seconds = collections.Counter()
         self.t0 = time.time()
 
     # ---- boundary recorder -----------------------------------------------------------------
@@ -193,6 +194,7 @@ class Ctx:
         self.case = (kind, params)
         self.evaluations += 1
         self.counters[f"cases:{kind}"] += 1
+        t_case = time.time()
         try:
             kinds[kind](self, **params)
         except Exception as exc:
@@ -203,13 +205,14 @@ class Ctx:
                                                  "trace": traceback.format_exc()[-1500:]}
         finally:
             self.case = None
+            self.seconds[kind] += time.time() - t_case
 
     def dump(self):
         return {
             "counters": dict(self.counters), "calls": dict(self.calls),
             "returned": self.returned, "raised": self.raised,
             "violations": self.violations, "nontrivial": sorted(self.nontrivial),
-            "samples": self.samples, "evaluations": self.evaluations,
+            "samples": self.samples, "evaluations": self.evaluations, "seconds": dict(self.seconds),
             "wall_s": time.time() - self.t0,
         }
 
